@@ -14,7 +14,7 @@ use std::collections::{BTreeMap, BTreeSet};
 
 #[derive(Clone, Debug)]
 enum Op { NewId, Add(Object), Set(ObjectId, Object), Del(ObjectId), Prune, DelZero, Renum(u32), DelPages(Vec<u32>), AddContent(ObjectId, Vec<u8>),
-          RmAnnot(ObjectId), AddXObj(ObjectId, Vec<u8>, ObjectId), AddGs(ObjectId, Vec<u8>, ObjectId), ChgStream(ObjectId, Vec<u8>), ChgPage(ObjectId, Vec<u8>) }
+          RmAnnot(ObjectId), AddXObj(ObjectId, Vec<u8>, ObjectId), AddGs(ObjectId, Vec<u8>, ObjectId), ChgStream(ObjectId, Vec<u8>), ChgPage(ObjectId, Vec<u8>), Compress, Decompress }
 
 /// what `ZlibEncoder::new(_, Compression::best())` returns: the external codec result shipped with the request
 fn deflate_best(data: &[u8]) -> Vec<u8> {
@@ -23,6 +23,56 @@ fn deflate_best(data: &[u8]) -> Vec<u8> {
     e.write_all(data).unwrap();
     e.finish().unwrap()
 }
+/// exactly what `decompress_zlib` asks of flate2 (errors ignored, partial output kept) — as in C09
+fn ext_inflate(input: &[u8]) -> Vec<u8> {
+    use std::io::Read;
+    let mut out = Vec::new();
+    if !input.is_empty() { let _ = flate2::read::ZlibDecoder::new(input).read_to_end(&mut out); }
+    out
+}
+/// exactly what `decompress_lzw` asks of weezl
+fn ext_lzw(input: &[u8], early: bool) -> Vec<u8> {
+    use weezl::{decode::Decoder, BitOrder};
+    let mut d = if early { Decoder::with_tiff_size_switch(BitOrder::Msb, 8) } else { Decoder::new(BitOrder::Msb, 8) };
+    let mut out = vec![];
+    let _ = d.into_stream(&mut out).decode_all(input);
+    out
+}
+fn ext_add(tab: &mut Vec<(String, Vec<u8>, Vec<u8>)>, kind: &str, i: &[u8], o: Vec<u8>) {
+    if !tab.iter().any(|(k, a, _)| k == kind && a == i) { tab.push((kind.into(), i.to_vec(), o)); }
+}
+fn ext_text(tab: &[(String, Vec<u8>, Vec<u8>)]) -> String {
+    let mut s = tab.len().to_string();
+    for (k, i, o) in tab { s.push_str(&format!(" {} {} {}", k, hex_tok(i), hex_tok(o))); }
+    s
+}
+/// external decoder results for every Flate / LZW stage the real filter chain of `s` reaches
+fn ext_for(tab: &mut Vec<(String, Vec<u8>, Vec<u8>)>, s: &lopdf::Stream) {
+    let Ok(filters) = s.filters() else { return };
+    let filters: Vec<Vec<u8>> = filters.into_iter().map(|f| f.to_vec()).collect();
+    let mut input = s.content.clone();
+    for (k, f) in filters.iter().enumerate() {
+        match f.as_slice() {
+            b"FlateDecode" => ext_add(tab, "z", &input, ext_inflate(&input)),
+            b"LZWDecode" => { ext_add(tab, "l0", &input, ext_lzw(&input, false)); ext_add(tab, "l1", &input, ext_lzw(&input, true)); }
+            _ => {}
+        }
+        if k + 1 == filters.len() { break; }
+        let mut p = s.clone();
+        p.dict.set("Filter", Object::Array(filters[..=k].iter().map(|n| Object::Name(n.clone())).collect()));
+        match guard(|| p.decompressed_content()) { Ok(Ok(v)) => input = v, _ => break }
+    }
+}
+fn compress_ext(doc: &Document) -> String {
+    let mut tab = vec![];
+    for (_, o) in doc.objects.iter() { if let Object::Stream(s) = o { if !s.dict.has(b"Filter") { ext_add(&mut tab, "d", &s.content, deflate_best(&s.content)); } } }
+    ext_text(&tab)
+}
+fn decompress_ext(doc: &Document) -> String {
+    let mut tab = vec![];
+    for (_, o) in doc.objects.iter() { if let Object::Stream(s) = o { ext_for(&mut tab, s); } }
+    ext_text(&tab)
+}
 fn inflate(data: &[u8]) -> Option<Vec<u8>> {
     use std::io::Read;
     let mut out = vec![];
@@ -30,8 +80,10 @@ fn inflate(data: &[u8]) -> Option<Vec<u8>> {
     Some(out)
 }
 
-fn op_text(op: &Op) -> String {
+fn op_text(op: &Op, doc: &Document) -> String {
     match op {
+        Op::Compress => format!("compress {}", compress_ext(doc)),
+        Op::Decompress => format!("decompress {}", decompress_ext(doc)),
         Op::NewId => "newid".into(),
         Op::Add(o) => format!("add {}", show_obj(o)),
         Op::Set(id, o) => format!("set {} {} {}", id.0, id.1, show_obj(o)),
@@ -67,6 +119,8 @@ fn apply(doc: &mut Document, op: &Op) -> String {
         Op::AddGs(p, n, x) => match doc.add_graphics_state(*p, n.clone(), *x) { Ok(()) => "unit".into(), Err(_) => "err".into() },
         Op::ChgStream(id, c) => { doc.change_content_stream(*id, c.clone()); "unit".into() }
         Op::ChgPage(id, c) => match doc.change_page_content(*id, c.clone()) { Ok(()) => "unit".into(), Err(_) => "err".into() },
+        Op::Compress => { doc.compress(); "unit".into() }
+        Op::Decompress => { doc.decompress(); "unit".into() }
     }
 }
 
@@ -366,6 +420,23 @@ fn oracle(c: &mut Ctx, sc: &StepCtx, op: &Op, before: &Document, after: &Documen
             if matches!(before.objects.get(sid), Some(Object::Stream(_))) { check_changed_stream(c, sc, before, after, *sid, content); unchanged(c, &[*sid], "frame:change_content_stream"); }
             else { unchanged(c, &[], "frame:change_content_stream"); }
         }
+        Op::Compress | Op::Decompress => {
+            // frame: nothing but stream objects changes; every stream still decodes to the same bytes and its
+            // Length is the stored length; decompress leaves no FlateDecode stream compressed
+            if after.trailer != before.trailer || after.max_id != before.max_id || after.objects.len() != before.objects.len() { fail(c, sc, "frame:compress", "trailer / max_id / object count changed", before); }
+            for (k, o) in before.objects.iter() {
+                match (o, after.objects.get(k)) {
+                    (Object::Stream(b), Some(Object::Stream(a))) => {
+                        if let (Some(x), y) = (decoded(b), decoded(a)) { if y.as_deref() != Some(&x[..]) { fail(c, sc, "compress:content", "a stream no longer decodes to the same content", before); break; } c.count("compress_streams_checked"); }
+                        if a != b && !matches!(a.dict.get(b"Length"), Ok(Object::Integer(l)) if *l == a.content.len() as i64) { fail(c, sc, "compress:length", "Length of a rewritten stream is not its stored length", before); break; }
+                        if matches!(op, Op::Decompress) && decoded(b).is_some() && a.dict.has(b"Filter") { fail(c, sc, "decompress:still-compressed", "a decodable stream is still compressed", before); break; }
+                        for (dk, dv) in b.dict.iter() { if dk != b"Length" && dk != b"Filter" && dk != b"DecodeParms" && a.dict.get(dk).ok() != Some(dv) { fail(c, sc, "frame:compress", "stream dictionary entry lost", before); break; } }
+                    }
+                    (x, Some(y)) => if x != y { fail(c, sc, "frame:compress", "a non-stream object changed", before); break; },
+                    (_, None) => { fail(c, sc, "frame:compress", "object lost", before); break; }
+                }
+            }
+        }
         Op::ChgPage(page, content) => {
             if ret == "unit" && (after.objects != before.objects) {
                 // the page's content afterwards = the new content (own decoding of the streams Contents names)
@@ -426,7 +497,7 @@ fn gen_op(r: &mut Rng, doc: &Document, safe_only: bool) -> Option<Op> {
     let streams: Vec<ObjectId> = doc.objects.iter().filter(|(_, o)| matches!(o, Object::Stream(_))).map(|(k, _)| *k).collect();
     let gen_content = |r: &mut Rng| -> Vec<u8> { if r.chance(1, 2) { let pat: Vec<u8> = (0..1 + r.usize(6)).map(|_| r.byte()).collect(); let n = r.usize(60); (0..n).flat_map(|_| pat.clone()).collect() } else { (0..r.usize(40)).map(|_| r.byte()).collect() } };
     let res_names: [&[u8]; 4] = [b"Im1", b"X", b"GS0", b"F1"];
-    Some(match r.below(18) {
+    Some(match r.below(20) {
         0 => Op::NewId,
         1 | 2 => Op::Add(gen_obj(r, 0, &rp)),
         3 => {
@@ -483,10 +554,12 @@ fn gen_op(r: &mut Rng, doc: &Document, safe_only: bool) -> Option<Op> {
             let t = if !streams.is_empty() && r.chance(5, 6) { *r.pick(&streams) } else if !ids.is_empty() { *r.pick(&ids) } else { return None };
             Op::ChgStream(t, gen_content(r))
         }
-        _ => {
+        16 | 17 => {
             let target = if !pages.is_empty() && r.chance(7, 8) { *r.pick(&pages) } else if !ids.is_empty() { *r.pick(&ids) } else { return None };
             Op::ChgPage(target, gen_content(r))
         }
+        18 => Op::Compress,
+        _ => Op::Decompress,
     })
 }
 
@@ -530,7 +603,7 @@ fn run_program(c: &mut Ctx, r: &mut Rng, stream: &str, safe_only: bool, max_len:
     for step in 0..len {
         let Some(op) = gen_op(r, &doc, safe_only) else { c.count("op_skipped"); continue };
         let before = doc.clone();
-        let text = op_text(&op);
+        let text = op_text(&op, &before);
         let req = format!("step {} {}", text, show_doc(&before));
         c.count(&format!("op.{}", text.split(' ').next().unwrap()));
         let sc = StepCtx { stream, step, op: text.clone() };
